@@ -81,3 +81,379 @@ lf_ne = Contract(
 lf_ne.compare_hook = _cmp_hook
 lf_ne.isinstance_hook = _isinst
 lf_ne.extra_checks = [bounded_check("bounded.c05", "filter-algebra-symrun", ["C05"])]
+
+
+# ---------------------------------------------------------------------------
+# 2. ZFilter operators as RATIONAL FUNCTIONS, at a generic evaluation point.
+#    A Poly object is abstracted by its value at an arbitrary fixed point t (a real number): by the
+#    contracts of the Poly operators (C07: evaluation is a ring homomorphism) p+q, p*q, -p, p/monomial,
+#    p**n evaluate to the same operations on the values.  An identity between rational functions holds
+#    iff it holds at a generic point, so the postconditions below are the statement's
+#    "(f+g) = f+g as rational functions", by cross-multiplication (no division).
+class PV(object):
+    """value of a Poly at the generic point (+ its number of terms, which the code inspects with len())"""
+    def __init__(self, v, n=None, tag="p"):
+        self.v, self.n, self.tag = v, n, tag
+
+    def pyvc_len(self, m):
+        return _pv_len(m, self)
+
+    def pyvc_getattr(self, m, attr):
+        if attr == "copy":
+            me = self
+
+            def copy(m_, args, kwargs):
+                return me
+            copy._pyvc_callee = True
+            return copy
+        raise Unsupported("Poly.%s" % attr)
+
+
+def _pv_len(m, v):
+    if v.n is None:
+        v.n = m.fresh("nterms_" + v.tag, INT)
+        m.assume(v.n >= 0)
+    return v.n
+
+
+def _num(x):
+    return sym.to_real(x) if sym.is_num(x) else None
+
+
+def _pv_binop(m, op, a, b):
+    av = a.v if isinstance(a, PV) else _num(a)
+    bv = b.v if isinstance(b, PV) else _num(b)
+    if av is None or bv is None or not (isinstance(a, PV) or isinstance(b, PV)):
+        return NotImplemented
+    if isinstance(op, ast.Add):
+        return PV(av + bv)
+    if isinstance(op, ast.Sub):
+        return PV(av - bv)
+    if isinstance(op, ast.Mult):
+        return PV(av * bv)
+    if isinstance(op, ast.Div):
+        # Poly.__truediv__: by a number, or by a one-term Poly
+        if isinstance(b, PV):
+            if m.branch(_pv_len(m, b) != 1):
+                raise sym.PyRaise("NotImplementedError")
+        if m.branch(bv == 0):
+            raise sym.PyRaise("ZeroDivisionError")
+        return PV(av / bv)
+    if isinstance(op, ast.Pow) and isinstance(a, PV):
+        # Poly.__pow__ (its real behaviour): n == 0 -> 1; empty -> empty; one term -> termwise power (any n);
+        # several terms: n >= 1 -> n-fold product, n < 0 -> the polynomial itself
+        n = b
+        if not isinstance(n, int):
+            raise Unsupported("Poly ** symbolic exponent")
+        if n == 0:
+            return PV(sym.to_real(1))
+        one_term = m.branch(_pv_len(m, a) <= 1)
+        if one_term or n >= 1:
+            if n < 0:
+                if m.branch(av == 0):
+                    raise sym.PyRaise("ZeroDivisionError")
+                r = sym.to_real(1)
+                for _ in range(-n):
+                    r = r / av
+                return PV(r, n=a.n)
+            r = sym.to_real(1)
+            for _ in range(n):
+                r = r * av
+            return PV(r, n=a.n if one_term else None)
+        return PV(av, n=a.n)
+    return NotImplemented
+
+
+def _pv_cmp(m, op, a, b):
+    if isinstance(a, PV) and isinstance(b, PV) and isinstance(op, (ast.Eq, ast.NotEq)):
+        # Poly.__eq__: equal polynomials have equal values (the converse need not hold at one point)
+        eq = m.fresh("polys_equal", BOOL)
+        m.assume(z3.Implies(eq, a.v == b.v))
+        return eq if isinstance(op, ast.Eq) else z3.Not(eq)
+    if _is_filt(a) or _is_filt(b):
+        return NotImplemented
+    return NotImplemented
+
+
+def _pv_unary(m, op, v):
+    if isinstance(v, PV) and isinstance(op, ast.USub):
+        return PV(-v.v, n=v.n)
+    return NotImplemented
+
+
+def zf_obj(tag):
+    def make(m, name):
+        n, d = z3.Real(tag + "_N"), z3.Real(tag + "_D")
+        m.assume(d != 0)
+        return m.new_obj("ZFilter", {"numpoly": PV(n, tag=tag + "n"), "denpoly": PV(d, tag=tag + "d")})
+    return make
+
+
+@lib.callee
+def ZFilter_model(m, args, kwargs):
+    """postcondition of LinearFilter.__init__ (contract 'LinearFilter.__init__' below): numerator and denominator are
+    both multiplied by the same non-zero factor (the delay normalisation), so the rational function is unchanged"""
+    num = args[0] if args else None
+    den = args[1] if len(args) > 1 else None
+
+    def val(x, default):
+        if x is None:
+            return sym.to_real(default)
+        if isinstance(x, PV):
+            return x.v
+        if isinstance(x, Ref) and x.kind == "list":
+            return sym.to_real(m.heap[(x.id, "arr")][0])      # [other]: the constant polynomial
+        if sym.is_num(x):
+            return sym.to_real(x)
+        raise Unsupported("ZFilter(%r)" % (x,))
+    nv, dv = val(num, 0), val(den, 1)
+    delta = m.fresh("delta", REAL)
+    m.assume(delta != 0)
+    return m.new_obj("ZFilter", {"numpoly": PV(nv * delta), "denpoly": PV(dv * delta)})
+
+
+@_spec
+def NUM(m, node):
+    o = m.eval(node.args[0])
+    return m.heap[(o.id, "numpoly")].v
+
+
+@_spec
+def DEN(m, node):
+    o = m.eval(node.args[0])
+    return m.heap[(o.id, "denpoly")].v
+
+
+def _zisinst(m, v, cls):
+    if cls is ZFilter_model:
+        cls = "ZFilter"
+    if cls in ("ZFilter", "LinearFilter"):
+        return isinstance(v, Ref) and v.kind == "obj" and v.elem in (("ZFilter",) if cls == "ZFilter" else ("ZFilter", "LinearFilter"))
+    if isinstance(cls, tuple):
+        return any(_zisinst(m, v, c) for c in cls)
+    if isinstance(cls, sym.Builtin) and cls.name in ("int", "float"):
+        return lib.std_isinstance(m, v, cls)
+    return lib.std_isinstance(m, v, cls)
+
+
+_ZG = {"ZFilter": ZFilter_model, "LinearFilter": "LinearFilter"}
+_ZENV = {"NUM": NUM, "DEN": DEN}
+
+
+def _zcontract(name, qual, modes, **kw):
+    c = Contract(name=name, qual=qual, kind="function", props=["C05"], modes=modes, globs=dict(_ZG, **kw.pop("globs", {})),
+                 spec_env=_ZENV, replay="oracles.bounded_adapter:c05", default_elem=Real, **kw)
+    c.binop_hook = _zf_binop
+    c.compare_hook = _pv_cmp
+    c.unary_hook = _zf_unary
+    c.isinstance_hook = _zisinst
+    return c
+
+
+def _zf_binop(m, op, a, b):
+    """operators between filter objects inside a body = the postconditions of the ZFilter operator contracts below"""
+    r = _pv_binop(m, op, a, b)
+    if r is not NotImplemented:
+        return r
+    if not (_is_filt(a) or _is_filt(b)):
+        return NotImplemented
+    g = lambda o: (m.heap[(o.id, "numpoly")].v, m.heap[(o.id, "denpoly")].v) if _is_filt(o) else (_num(o), sym.to_real(1))
+    if isinstance(op, ast.Pow) and _is_filt(a) and isinstance(b, int) and b >= 0:
+        # postcondition of ZFilter.__pow__ for n >= 0 (modes n=0..3 of the contract below)
+        n1, d1 = g(a)
+        N = D = sym.to_real(1)
+        for _ in range(b):
+            N, D = N * n1, D * d1
+        delta = m.fresh("delta", REAL)
+        m.assume(delta != 0)
+        return m.new_obj("ZFilter", {"numpoly": PV(N * delta), "denpoly": PV(D * delta)})
+    (n1, d1), (n2, d2) = g(a), g(b)
+    if n1 is None or n2 is None:
+        return NotImplemented
+    if isinstance(op, ast.Add):
+        N, D = n1 * d2 + n2 * d1, d1 * d2
+    elif isinstance(op, ast.Sub):
+        N, D = n1 * d2 - n2 * d1, d1 * d2
+    elif isinstance(op, ast.Mult):
+        N, D = n1 * n2, d1 * d2
+    elif isinstance(op, ast.Div):
+        if getattr(m.mode, "generic_point", False):
+            # the evaluation point is generic: it is not a root of a polynomial that is not identically zero
+            m.assume(n2 != 0)
+        elif m.branch(n2 == 0):
+            raise sym.PyRaise("ZeroDivisionError")
+        N, D = n1 * d2, d1 * n2
+    else:
+        return NotImplemented
+    delta = m.fresh("delta", REAL)
+    m.assume(delta != 0)
+    return m.new_obj("ZFilter", {"numpoly": PV(N * delta), "denpoly": PV(D * delta)})
+
+
+def _zf_unary(m, op, v):
+    r = _pv_unary(m, op, v)
+    if r is not NotImplemented:
+        return r
+    if _is_filt(v) and isinstance(op, ast.USub):
+        return m.new_obj("ZFilter", {"numpoly": PV(-m.heap[(v.id, "numpoly")].v), "denpoly": m.heap[(v.id, "denpoly")]})
+    return NotImplemented
+
+
+_F, _Gf = zf_obj("f"), zf_obj("g")
+_nz = "DEN(result) != 0"
+zf_add = _zcontract("ZFilter.__add__", "audiolazy/lazy_filters.py::ZFilter.__add__", {
+    "filter+filter": Mode(params=dict(self=_F, other=_Gf), ensures=[
+        ("S:(f+g)-is-the-sum-of-the-rational-functions", "NUM(result) * (DEN(self) * DEN(other)) == (NUM(self) * DEN(other) + NUM(other) * DEN(self)) * DEN(result) and " + _nz)]),
+    "filter+number": Mode(params=dict(self=_F, other=Real), ensures=[
+        ("S:(f+c)", "NUM(result) * DEN(self) == (NUM(self) + other * DEN(self)) * DEN(result) and " + _nz)]),
+    "filter+other-LinearFilter": Mode(params=dict(self=_F, other=lib.RawObj("LinearFilter")), ensures=[("S:unreachable", "False")], raises={"ValueError": None}),
+}, stated=["(f+g) is the sum as a rational function (both branches: equal denominators shortcut, general case)"])
+zf_sub = _zcontract("ZFilter.__sub__", "audiolazy/lazy_filters.py::ZFilter.__sub__", {
+    "filter-filter": Mode(params=dict(self=_F, other=_Gf), ensures=[
+        ("S:(f-g)", "NUM(result) * (DEN(self) * DEN(other)) == (NUM(self) * DEN(other) - NUM(other) * DEN(self)) * DEN(result) and " + _nz)]),
+    "filter-number": Mode(params=dict(self=_F, other=Real), ensures=[("S:(f-c)", "NUM(result) * DEN(self) == (NUM(self) - other * DEN(self)) * DEN(result) and " + _nz)]),
+}, stated=["(f-g) as a rational function"])
+zf_mul = _zcontract("ZFilter.__mul__", "audiolazy/lazy_filters.py::ZFilter.__mul__", {
+    "filter*filter": Mode(params=dict(self=_F, other=_Gf), ensures=[
+        ("S:(f*g)-is-the-product", "NUM(result) * (DEN(self) * DEN(other)) == (NUM(self) * NUM(other)) * DEN(result) and " + _nz)]),
+    "filter*number": Mode(params=dict(self=_F, other=Real), ensures=[("S:(f*c)", "NUM(result) * DEN(self) == (NUM(self) * other) * DEN(result) and " + _nz)]),
+    "filter*other-LinearFilter": Mode(params=dict(self=_F, other=lib.RawObj("LinearFilter")), ensures=[("S:unreachable", "False")], raises={"ValueError": None}),
+}, stated=["(f*g) is the product as a rational function"])
+zf_div = _zcontract("ZFilter.__truediv__", "audiolazy/lazy_filters.py::ZFilter.__truediv__", {
+    "filter/filter": Mode(params=dict(self=_F, other=_Gf), requires=["NUM(other) != 0"], ensures=[
+        ("S:(f/g)-is-the-quotient", "NUM(result) * (DEN(self) * NUM(other)) == (NUM(self) * DEN(other)) * DEN(result) and " + _nz),
+        ("S:((f/g)*g)==f", "(NUM(result) * NUM(other)) * DEN(self) == NUM(self) * (DEN(result) * DEN(other))")]),
+    "filter/number": Mode(params=dict(self=_F, other=Real), requires=["other != 0"], ensures=[("S:(f/c)", "NUM(result) * DEN(self) * other == NUM(self) * DEN(result) and " + _nz)]),
+}, globs={"operator": sym.Module("operator", {"truediv": sym.Builtin("operator.truediv")})}, stated=["(f/g) is the quotient; ((f/g)*g) = f"])
+sym.BUILTINS["operator.truediv"] = sym._b_op("truediv")
+
+
+def _pow_mode(n, lens):
+    req = ["NUM(self) != 0"] if n < 0 else []
+    if lens == "single-terms":
+        prm = dict(self=lambda m, nm: m.new_obj("ZFilter", {"numpoly": PV(z3.Real("f_N"), n=z3.IntVal(1)), "denpoly": PV(z3.Real("f_D"), n=z3.IntVal(1))}), other=Const(n))
+        req = req + ["DEN(self) != 0"]
+    else:
+        prm = dict(self=_F, other=Const(n))
+    if n >= 0:
+        ens = "NUM(result) * %s == %s * DEN(result)" % (" * ".join(["DEN(self)"] * n) or "1", " * ".join(["NUM(self)"] * n) or "1")
+    else:
+        ens = "NUM(result) * %s == %s * DEN(result)" % (" * ".join(["NUM(self)"] * -n), " * ".join(["DEN(self)"] * -n))
+    return Mode(params=prm, requires=req, ensures=[("S:(f**n)-is-the-n-fold-product-(n<0:of-the-reciprocal)", ens + " and " + _nz)])
+
+
+zf_pow = _zcontract("ZFilter.__pow__", "audiolazy/lazy_filters.py::ZFilter.__pow__",
+                    {"n=%d,%s" % (n, l): _pow_mode(n, l) for n in (-2, -1, 0, 1, 2, 3) for l in ("any-lengths", "single-terms")},
+                    stated=["(f**n) as a rational function for n in -2..3, for single-term and multi-term numerators / denominators"])
+
+zf_unary = _zcontract("ZFilterMeta.__unary__.dunder[neg]", "audiolazy/lazy_filters.py::ZFilterMeta.__unary__.dunder", {
+    "neg": Mode(params=dict(self=_F, cls=Const(ZFilter_model), op_func=Const(sym.Builtin("operator.neg"))),
+                ensures=[("S:(-f)", "NUM(result) * DEN(self) == -NUM(self) * DEN(result) and " + _nz)])},
+    stated=["-f negates the numerator"])
+sym.BUILTINS["operator.neg"] = lambda m, args, kw: _zf_unary(m, ast.USub(), args[0]) if not sym.is_num(args[0]) else -sym.to_z3num(args[0])
+
+
+def _rb_mode(opname, ens):
+    return Mode(params=dict(self=_F, other=Real, cls=Const(ZFilter_model), op_func=Const(sym.Builtin("operator." + opname))),
+                requires=(["NUM(self) != 0"] if opname == "truediv" else []), ensures=[("S:reflected-%s" % opname, ens + " and " + _nz)])
+
+
+zf_rbinary = _zcontract("ZFilterMeta.__rbinary__.dunder", "audiolazy/lazy_filters.py::ZFilterMeta.__rbinary__.dunder", {
+    "c+f": _rb_mode("add", "NUM(result) * DEN(self) == (other * DEN(self) + NUM(self)) * DEN(result)"),
+    "c-f": _rb_mode("sub", "NUM(result) * DEN(self) == (other * DEN(self) - NUM(self)) * DEN(result)"),
+    "c*f": _rb_mode("mul", "NUM(result) * DEN(self) == (other * NUM(self)) * DEN(result)"),
+    "c/f": _rb_mode("truediv", "NUM(result) * NUM(self) == (other * DEN(self)) * DEN(result)"),
+    "filter-on-the-left-of-another-domain": Mode(params=dict(self=_F, other=_Gf, cls=Const("ZFilter"), op_func=Const(sym.Builtin("operator.add"))),
+                                                 ensures=[("S:unreachable", "False")], raises={"ValueError": None}),
+}, stated=["reflected operators: c + f, c - f, c * f, c / f as rational functions"])
+
+
+# LinearFilter.__init__: the delay normalisation multiplies numerator and denominator by the same non-zero monomial
+@lib.callee
+def Poly_model(m, args, kwargs):
+    (x,) = args if args else (None,)
+    if isinstance(x, PV):
+        return x
+    if isinstance(x, dict):            # {0: 1}
+        if set(x.keys()) == {0}:
+            return PV(sym.to_real(x[0]), n=z3.IntVal(1))
+        raise Unsupported("Poly(dict)")
+    if isinstance(x, Ref) and x.kind == "list":   # Poly([0, 1]) == x: the monomial whose value is the evaluation point itself
+        return PV(z3.Real("point_u"), n=z3.IntVal(1), tag="x")
+    raise Unsupported("Poly(%r)" % (x,))
+
+
+class PVTerms:
+    """denpoly.terms(): only its smallest power is used (min(key for key, value in ...))"""
+    pass
+
+
+def _init_consume(m, kind, arg):
+    raise Unsupported("consumption in LinearFilter.__init__")
+
+
+def _pv_terms_attr(pv):
+    def terms(m_, args, kwargs):
+        return PVTerms()
+    terms._pyvc_callee = True
+    return terms
+
+
+_old_getattr = PV.pyvc_getattr
+
+
+def _pv_getattr(self, m, attr):
+    if attr == "terms":
+        return _pv_terms_attr(self)
+    return _old_getattr(self, m, attr)
+
+
+PV.pyvc_getattr = _pv_getattr
+
+
+def _min_model(m, args, kwargs):
+    """min(key for key, value in denpoly.terms()): the smallest power, an arbitrary integer here"""
+    return m.fresh("min_power", INT)
+
+
+def _pv_binop_init(m, op, a, b):
+    # x ** -power with a symbolic integer power: a non-zero value (the point is not 0)
+    if isinstance(op, ast.Pow) and isinstance(a, PV) and a.tag == "x" and sym.is_z3(b):
+        r = m.fresh("x_pow", REAL)
+        m.assume(r != 0)
+        return PV(r, n=z3.IntVal(1))
+    return _zf_binop(m, op, a, b)
+
+
+lf_init = _zcontract("LinearFilter.__init__", "audiolazy/lazy_filters.py::LinearFilter.__init__", {
+    "from-polynomials": Mode(params=dict(self=lib.RawObj("LinearFilter"), numerator=lambda m, n: PV(z3.Real("n_in")), denominator=lambda m, n: PV(z3.Real("d_in"))),
+                             ensures=[("S:the-rational-function-is-unchanged-by-the-delay-normalisation",
+                                       "NUM(self) * d_in == n_in * DEN(self) and implies(d_in != 0, DEN(self) != 0)")]),
+    "cast-from-a-filter": Mode(params=dict(self=lib.RawObj("LinearFilter"), numerator=_F, denominator=Const(None)),
+                               ensures=[("S:same-rational-function", "NUM(self) * DEN(numerator) == NUM(numerator) * DEN(self) and DEN(self) != 0")]),
+}, globs={"Poly": Poly_model, "min": None}, stated=["constructing a filter does not change the rational function: the denominator is shifted to start at delay 0 by multiplying numerator and denominator by the same monomial"])
+lf_init.spec_env = dict(_ZENV, n_in=z3.Real("n_in"), d_in=z3.Real("d_in"))
+lf_init.binop_hook = _pv_binop_init
+
+
+def _min_callee(m, args, kwargs):
+    return _min_model(m, args, kwargs)
+
+
+_min_callee._pyvc_callee = True
+lf_init.globs["min"] = _min_callee
+
+
+class _PowersOfTerms:
+    """(key for key, value in poly.terms()): only consumed by min()"""
+    pass
+
+
+def _init_genexpr(m, node):
+    src = ast.unparse(node)
+    if src.replace(" ", "") == "(keyforkey,valueinself.denpoly.terms())":
+        return _PowersOfTerms()
+    return NotImplemented
+
+
+lf_init.genexpr_hook = _init_genexpr
